@@ -209,6 +209,17 @@ impl<'a> Model<'a> {
         }
     }
 
+    /// A seam that is handed the item's value (literal or expression): `PV::from_value`, `PE::from_expr`.
+    fn seam_value(&mut self, it: &Item) -> M<Conv> {
+        *self.item_calls.entry(it.id).or_insert(0) += 1;
+        let key = Key::Item(it.id);
+        let rv = it.r_value.unwrap_or(it.r_item);
+        match self.faults.get(&key).cloned() {
+            Some(f) => Ok(Err(self.fire_own(&key, &f, Some((rv, rv)))?)),
+            None => Ok(Ok(Val::Tok(Tok::Item(it.id)))),
+        }
+    }
+
     /// A seam that is handed nothing identifiable.
     fn seam_site(&mut self, site: u32, hook: &str) -> M<Result<(), Vec<Leaf>>> {
         let key = Key::Site(site, hook.to_string());
@@ -283,6 +294,26 @@ impl<'a> Model<'a> {
                 let site = *site;
                 self.route(it, &mut |m, h| m.ph_hook(site, it, h))
             }
+            Ty::PV(_) | Ty::OverridePV(_) => {
+                let is_override = matches!(ty, Ty::OverridePV(_));
+                self.route(it, &mut |m, h| match h {
+                    Hook::Word if is_override => Ok(Ok(Val::Inherit)),
+                    // any literal is handed to the user's from_value
+                    Hook::Bool(_) | Hook::Str(_) | Hook::Char(_) | Hook::Int(_) => m.seam_value(it),
+                    other => m.default_hook(&other),
+                })
+            }
+            Ty::PE(_) => match &it.form {
+                // any expression is handed to the user's from_expr; only from_meta's item span follows
+                Form::NV(_) => {
+                    let mut r = self.seam_value(it)?;
+                    if let Err(ls) = &mut r {
+                        offer_item_span(ls, it.r_item);
+                    }
+                    Ok(r)
+                }
+                _ => self.route(it, &mut |m, h| m.default_hook(&h)),
+            },
             Ty::Opt(t) => Ok(self.conv(t, it)?.map(|v| Val::Some(Box::new(v)))),
             Ty::Boxed(t) | Ty::WithOrig(t) => self.conv(t, it),
             Ty::DResult(t) | Ty::MResult(t) => Ok(Ok(self.conv(t, it)?.unwrap_or(Val::Swallowed))),
